@@ -721,16 +721,13 @@ func inlineBuildHead(w *World) (string, string, string) {
 	}
 	name := h.Name()
 	callers := w.Callers()[h]
-	if len(callers) != 1 {
-		return "", name, fmt.Sprintf("it has %d callers", len(callers))
-	}
-	var b *FuncInfo
-	for c := range callers {
-		b = c
-	}
-	if b.Pkg != h.Pkg || b == h {
+	// the helper is inlined into the build function; other callers (a Validate dry run that
+	// shares the helper) keep calling the declaration, which then stays in the copy
+	b := ro.doBuild
+	if !callers[b] || b.Pkg != h.Pkg || b == h {
 		return "", name, "caller shape"
 	}
+	keepDecl := len(callers) > 1
 	info := b.Pkg.TypesInfo
 	// results of the helper
 	res := h.Decl.Type.Results
@@ -922,13 +919,15 @@ func inlineBuildHead(w *World) (string, string, string) {
 	rf, rs := off(asg.Pos())
 	_, re := off(ifs.End())
 	edits[rf] = append(edits[rf], edit{rs, re, repl})
-	ds := h.Decl.Pos()
-	if h.Decl.Doc != nil {
-		ds = h.Decl.Doc.Pos()
+	if !keepDecl {
+		ds := h.Decl.Pos()
+		if h.Decl.Doc != nil {
+			ds = h.Decl.Doc.Pos()
+		}
+		df, dso := off(ds)
+		_, deo := off(h.Decl.End())
+		edits[df] = append(edits[df], edit{dso, deo, ""})
 	}
-	df, dso := off(ds)
-	_, deo := off(h.Decl.End())
-	edits[df] = append(edits[df], edit{dso, deo, ""})
 	for file, es := range edits {
 		bts, err := os.ReadFile(file)
 		if err != nil {
